@@ -21,7 +21,8 @@ LEVEL_NOTE = ("Trusted: Lean kernel + 3 standard axioms; the hand-written model 
               "not generated. Aliasing of the format object (deepcopy really is a copy) is CPython behaviour; its "
               "attributes are compared before/after on every case.")
 TECHNIQUE = "Lean 4 proof: algebraic characterisation of a fold-structured writer model; differential correspondence model vs writer.py"
-RULE = ("corpus; exhaustive small libraries (<=3 blocks over 9 block shapes) x 6 formats; structured random libraries "
+RULE = ("corpus; entries holding equal fields (same key, value and line); one format object used for two writes with "
+        "different value_column settings; exhaustive small libraries (<=3 blocks over 9 block shapes) x 6 formats; structured random libraries "
         "(0..7 blocks of every class incl. failed / duplicate-key / duplicate-field / middleware-error / non-block objects, "
         "0..6 fields, key lengths 0..45, int and list values) x formats (indent in '', ' ', tab, 4 spaces, 'xy'; value_column 0..40 "
         "or auto; separators '', NL, NL NL, ' NL', '%%NL', ', '; trailing comma; failed-comment templates with and without {n}, "
@@ -180,9 +181,24 @@ def gen(tier, rng):
         for bs in itertools.product(SMALL_BLOCKS[:6], repeat=n):
             if len(set(map(repr, bs))) < n:
                 yield {"fmt": SMALL_FMTS[(n + len(repr(bs))) % len(SMALL_FMTS)], "blocks": list(bs), "same_line": True}
+    # entries holding EQUAL fields (same key, value and line - also as the last field): the comma rule is positional
+    for tc in (False, True):
+        for fs in ([["a", "{x}"], ["b", "{y}"], ["a", "{x}"]], [["a", "{x}"], ["a", "{x}"]], [["a", "{x}"], ["a", "{x}"], ["b", "{y}"]],
+                   [["n", "1"], ["n", "1"], ["n", "1"]]):
+            yield {"fmt": mkfmt("  ", 0, "\n", tc), "blocks": [["entry", "a", "k", fs, "r"]], "same_line": True}
+            yield {"fmt": mkfmt("", "auto", "", tc), "blocks": [["entry", "a", "k", fs, "r"], ["dupfield", ["entry", "a", "k", fs, "r"]]],
+                   "same_line": True}
+    # one format object used for two writes with different columns: the second text must obey the second column
+    for col in (0, 5, 12, 20, "auto"):
+        for warm in (0, 7, 12, 30, "auto"):
+            if warm != col:
+                fields = [[k, "{v}"] for k in ["", "a", "abc", "k" * 9, "k" * 17]]
+                yield {"fmt": mkfmt(" ", col, "\n", False), "blocks": [["entry", "a", "k", fields, "r"]], "warm": warm}
     for _ in range(60000 if tier == "quick" else 500000):
         bl = [_rand_block(rng) for _ in range(rng.choice([0, 1, 1, 2, 2, 3, 3, 4, 5, 7]))]
         c = {"fmt": _rand_fmt(rng), "blocks": bl}
+        if rng.random() < 0.05:
+            c["warm"] = rng.choice([0, 3, 11, 25, "auto"])
         if bl and rng.random() < 0.1:
             bl.append(bl[rng.randrange(len(bl))])
             c["same_line"] = True
@@ -224,6 +240,16 @@ def impl(case):
     from bibtexparser import writer
     lib = W.build_library(case["blocks"], case.get("same_line", False))
     F = build_fmt(case["fmt"])
+    if "warm" in case:
+        # the same format object was used before with another column (state must not leak between writes)
+        F.value_column = case["warm"]
+        try:
+            writer.write(lib, F)
+        except RecursionError:
+            raise
+        except Exception:  # noqa
+            pass
+        F.value_column = case["fmt"]["col"]
     try:
         res = [Sym("ok"), writer.write(lib, F)]
     except RecursionError:
@@ -281,6 +307,10 @@ def oracle(case):
     lib = W.build_library(case["blocks"], case.get("same_line", False))
     f = case["fmt"]
     F = build_fmt(f)
+    if "warm" in case:
+        F.value_column = case["warm"]
+        writer.write(lib, F)
+        F.value_column = f["col"]
     before = [F.indent, F.value_column, F.block_separator, F.trailing_comma, F.parsing_failed_comment]
     blocks_before = enc(W.enc_items(lib.blocks))
     out = writer.write(lib, F)
